@@ -494,7 +494,10 @@ class MiniEval:
             if isinstance(op, ast.GtE):
                 return left >= right
         except TypeError:
-            pass
+            concrete = (int, float, str, bytes, bool, tuple, list, type(None))
+            if isinstance(left, concrete) and isinstance(right, concrete):
+                # both operands are concrete values: Python itself raises here
+                raise Raised(f"TypeError at `{u(e)}` ({type(left).__name__} vs {type(right).__name__})", e)
         raise AnalysisError(f"{self.where}: cannot decide comparison `{u(e)}` on abstract values ({left!r}, {right!r})")
 
     def getattr(self, base: Any, attr: str, e: ast.AST) -> Any:
